@@ -76,7 +76,7 @@ class Check:
     }
 
     def runs(self, tier):
-        return 4000 if tier == 'quick' else 60000
+        return 4000 if tier == 'quick' else 40000
 
     def wall_cap(self, tier):
         return 700 if tier == 'quick' else 6600
